@@ -46,22 +46,22 @@ type Ctx struct {
 	Pool    *pool.Pool
 	Level   string
 
-	mu         sync.Mutex
-	counters   map[string]int64
-	distinct   map[string]map[uint64]struct{}
-	samples    []interface{}
-	sampleCap  int
-	violations []Violation
-	vioKeys    map[string]bool
-	knownHit   map[string]bool
-	findings   []Finding
-	notes      []string
-	rule       string
-	assumptions []string
-	exhaustive bool
+	mu           sync.Mutex
+	counters     map[string]int64
+	distinct     map[string]map[uint64]struct{}
+	samples      []interface{}
+	sampleCap    int
+	violations   []Violation
+	vioKeys      map[string]bool
+	knownHit     map[string]bool
+	findings     []Finding
+	notes        []string
+	rule         string
+	assumptions  []string
+	exhaustive   bool
 	inconclusive []string
-	extra      map[string]interface{}
-	start      time.Time
+	extra        map[string]interface{}
+	start        time.Time
 }
 
 func (c *Ctx) Quick() bool { return c.Tier == "quick" }
@@ -429,7 +429,9 @@ func doReplay(c *Ctx, file string) int {
 
 // ---------------------------------------------------------------- helpers shared by checks
 
-func execReq(src string) Req { return Req{Op: "exec", Src: Runes(src), EvalBudget: 200000, ParseBudget: 64*(len(src)+16) + 2000} }
+func execReq(src string) Req {
+	return Req{Op: "exec", Src: Runes(src), EvalBudget: 200000, ParseBudget: 64*(len(src)+16) + 2000}
+}
 
 func clip(s string, n int) string {
 	if len(s) > n {
